@@ -174,6 +174,18 @@ func (w *world) runOp(rec *opRec) {
 		}
 	case "batch":
 		rs := bRanges(op.Ranges)
+		if op.Huge > 0 {
+			// thousands of tiny disjoint ranges over the whole key space, written out here and not in the scenario
+			// (the library sends uncached ranges to PD in pages; what lies behind the first page must not be forgotten)
+			rs = rs[:0]
+			per := op.Huge/24 + 1
+			for c := byte('b'); c <= 'y' && len(rs) < op.Huge; c++ {
+				for j := 0; j < per && len(rs) < op.Huge; j++ {
+					rs = append(rs, [2][]byte{[]byte(fmt.Sprintf("%c%05d", c, 2*j)), []byte(fmt.Sprintf("%c%05d", c, 2*j+1))})
+				}
+			}
+			w.sim.Count("probe.batch-huge")
+		}
 		w.probeShape("batch", rs)
 		before := locate.VerifLocatesimDumpIndex(w.cache)
 		krs := make([]kv.KeyRange, len(rs))
